@@ -39,7 +39,14 @@ COMPONENTS = ["trace", "outs", "ntfs", "obs", "canc", "dlv", "draws"]
 
 
 # ----------------------------------------------------------------------------- running the implementation
-def run_impl(cases, nproc=14, timeout=900, batch=None, env_extra=None):
+def n_stops(case):
+    return sum(1 for m in case["models"] for body in m["prog"] + m.get("lst", []) for a in body
+               if a[0] == "cmd" and a[1][0] in ("stop", "init")) + len(case.get("stop_at") or [])
+
+
+def run_impl(cases, nproc=14, batch=None, env_extra=None):
+    """Run the cases on the implementation in fresh interpreters.  A batch that does not come back in time
+    is re-run case by case; a case that still does not come back is reported as {"error": "timeout"}."""
     if not cases:
         return []
     nproc = max(1, min(nproc, len(cases)))
@@ -47,12 +54,25 @@ def run_impl(cases, nproc=14, timeout=900, batch=None, env_extra=None):
         batch = max(4, min(40, len(cases) // (nproc * 4) or 1))
     chunks = [cases[i:i + batch] for i in range(0, len(cases), batch)]
 
-    def one(chunk):
+    def call(chunk, timeout):
         p = subprocess.run([C.PY, str(DRIVER)], input=json.dumps(chunk), capture_output=True, text=True,
                            timeout=timeout, env=C.child_env(env_extra))
         if p.returncode != 0:
             raise RuntimeError("c06_impl failed: " + p.stderr[-2000:])
         return json.loads(p.stdout)
+
+    def one(chunk):
+        budget = 25 + 0.5 * len(chunk) + 5 * sum(n_stops(c) for c in chunk)
+        try:
+            return call(chunk, budget)
+        except subprocess.TimeoutExpired:
+            res = []
+            for c in chunk:
+                try:
+                    res += call([c], 20 + 5 * n_stops(c))
+                except subprocess.TimeoutExpired:
+                    res.append({"error": "timeout", "tb": "the driver did not return within the time limit on this case"})
+            return res
     with ThreadPoolExecutor(max_workers=nproc) as ex:
         outs = list(ex.map(one, chunks))
     return [o for chunk_out in outs for o in chunk_out]
@@ -226,6 +246,8 @@ def oracle(case, obs):
     """first violated clause of C06 on the implementation's own observations, or None; plus facts"""
     facts = {"hist_executed": 0, "hist_pending": 0, "second_executed": 0, "stats": False, "stochastic": not is_det(case),
              "two_models": len(case["models"]) > 1, "kind": case.get("hist_kind")}
+    if obs.get("error") == "timeout":
+        return ("implementation-does-not-return", "the simulator never became quiescent / a command never returned on this case"), facts
     if "error" in obs:
         return ("driver-error", obs["error"] + " " + obs.get("tb", "")[-300:]), facts
     tw = obs.get("twin")
